@@ -5,6 +5,7 @@
   the first event is a root, extend and join need a head atom, every pop has 1 ≤ depth < path length.
 -/
 import Purr.Lemmas.WalkL
+import Purr.Lemmas.BuilderL
 namespace Purr.C08
 open Purr
 
@@ -28,6 +29,18 @@ theorem walker_conformant (g : Graph) : Conformant (walk g).1 := walk_proto g
     the string writer accepts every conformant history -/
 theorem conformant_writer_safe (es : List Event) (h : Conformant es) : (wrun [] es).isSome :=
   wrun_safe es (ps := none) (st := []) rfl h
+
+/-- … and neither is the graph builder (headless extend/join, indexing, `expect("edge for rnum")`) -/
+theorem conformant_builder_safe (es : List Event) (h : Conformant es) : (brun .init es).isSome :=
+  brun_safe es BSafe.init h
+
+theorem reader_never_panics_builder (s : Str) : (build? (read s).1).isSome := by
+  have := conformant_builder_safe _ (reader_conformant s)
+  simpa [build?] using this
+
+theorem walker_never_panics_builder (g : Graph) : (build? (walk g).1).isSome := by
+  have := conformant_builder_safe _ (walker_conformant g)
+  simpa [build?] using this
 
 theorem reader_never_panics_writer (s : Str) : (write? (read s).1).isSome := by
   have := conformant_writer_safe _ (reader_conformant s)
